@@ -1461,7 +1461,7 @@ class RTCSctpTransport(AsyncIOEventEmitter):
         if state == self.State.ESTABLISHED:
             self.__state = "connected"
             for channel in list(self._data_channels.values()):
-                if channel.negotiated and channel.readyState != "open":
+                if channel.negotiated and channel.readyState == "connecting":
                     channel._setReadyState("open")
             asyncio.ensure_future(self._data_channel_flush())
         elif state == self.State.CLOSED:
@@ -1850,7 +1850,8 @@ class RTCSctpTransport(AsyncIOEventEmitter):
                 self.emit("datachannel", channel)
             elif msg_type == DATA_CHANNEL_ACK and stream_id in self._data_channels:
                 channel = self._data_channels[stream_id]
-                channel._setReadyState("open")
+                if channel.readyState == "connecting":
+                    channel._setReadyState("open")
         elif pp_id == WEBRTC_STRING and stream_id in self._data_channels:
             # emit message
             self._data_channels[stream_id].emit("message", data.decode("utf8"))
